@@ -74,7 +74,11 @@ func toCodeSignature(t *types.Signature) *jen.Statement {
 	jenParams := []jen.Code{}
 	params := t.Params()
 	for i := 0; i < params.Len(); i++ {
-		jenParams = append(jenParams, toCode(params.At(i).Type()))
+		param := toCode(params.At(i).Type())
+		if slice, ok := params.At(i).Type().(*types.Slice); ok && t.Variadic() && i == params.Len()-1 {
+			param = jen.Op("...").Add(toCode(slice.Elem()))
+		}
+		jenParams = append(jenParams, param)
 	}
 
 	jenResults := []jen.Code{}
